@@ -30,16 +30,24 @@
 (*  simultaneously enabled.                                                  *)
 EXTENDS Integers, Sequences, FiniteSets, TLC
 
-CONSTANTS FixAsyncCb,       \* TRUE: AddWaitForCsvTx does not call back synchronously (proposed fix)
-          FixCbOutsideLock, \* TRUE: HandleCsvTx / Update call back after releasing their lock (proposed fix)
-          FixKickoff        \* TRUE: AddWaitForConfirmationTx hands the first height over without blocking (buffered channel)
+(* The Fix constants select, per repaired defect, the code as it is after the  *)
+(* repair (TRUE) or as it was before (FALSE; kept for regression schedules).  *)
+CONSTANTS FixAsyncCb,   \* AddWaitForCsvTx (RPC watcher) runs the CSV callback on its own goroutine instead of synchronously
+          FixCbRpc,     \* HandleCsvTx calls back after releasing the watcher lock
+          FixCbEl,      \* liquidBlockHeaderSubscriber.Update runs the observers outside its registry lock
+          FixKickoff,   \* AddWaitForConfirmationTx hands the first height over without blocking (buffered channel, select/default)
+          FixDispatch,  \* the dispatcher reads observerLoopList under the watcher lock
+          FixPolicy,    \* NewSwapsAllowed and ReloadFile take the policy mutex
+          FixResend,    \* ResendLastMessage runs its action under the swap mutex
+          FixRecover    \* Recover runs the state's action and the store update under the swap mutex
 
 Drivers == {"A", "B", "C"}
-Spawned == {"obs", "elw", "rec"}
+Spawned == {"obs", "elw", "rec", "acbA", "acbB", "acbC", "acbrec"}   \* acb<p>: the goroutine AddWaitForCsvTx starts for the callback, per caller
 Procs   == Drivers \cup Spawned
-Mutexes == {"M", "M2A", "M2B", "M2C", "W", "H", "R", "P", "G", "SW"}
+Mutexes == {"M", "M2A", "M2B", "M2C", "W", "H", "U", "R", "P", "G", "SW"}
 (* M  SwapStateMachine.mutex of the swap       M2<p> mutex of the new swap created by driver p (written M2 in the programs) *)
 (* W  BlockchainRpcTxWatcher (embedded Mutex)   H  liquidBlockHeaderSubscriber.mu *)
+(* U  liquidBlockHeaderSubscriber.updateMu (repaired code only)              *)
 (* R  electrumTxWatcher.mu   P policy.mu (package level)   G messages.Manager  *)
 (* SW SwapService RWMutex held for writing; readers are counted in rd        *)
 
@@ -110,11 +118,18 @@ NextSt(role, st, ev) ==
 CtxEvents == {"cancel", "coop", "coop_bad", "opening"}   \* events that carry a message (eventCtx # nil)
 
 \* ---------------------------------------------------------------- programs
+NewSwapsAllowed == IfElse("lockedPolicy",
+                           <<Acq("P"), Acc("policy.(*Policy).NewSwapsAllowed", V("pol.allow", "r")), Rel("P")>>,
+                           <<Acc("policy.(*Policy).NewSwapsAllowed", V("pol.allow", "r"))>>)
 GetActive == <<RAcq, Acc("swap.(*SwapService).GetActiveSwap", V("activeSwaps", "r")), RRel>>
 MgrRemove == <<Gate("mgr.remove"), Acq("G"), Acc("messages.(*Manager).RemoveSender", V("mgr.map", "w")), Rel("G")>>
 Height    == IfElse("rpc", <<Gate("rpc.height")>>,
                     <<Acq("R"), Acc("lwk.(*electrumTxWatcher).GetBlockHeight", V("el.height", "r")), Rel("R")>>)
 SE        == "swap.(*SwapStateMachine).SendEvent"
+\* the dispatcher of StartWatchingTxs obtains the channels of the observation loops
+Dispatch  == IfElse("lockedDispatch",
+                    <<Acq("W"), Acc("txwatcher.(*BlockchainRpcTxWatcher).observerBlockChans", V("w.obsList", "r")), Rel("W")>>,
+                    <<Acc("txwatcher.(*BlockchainRpcTxWatcher).StartWatchingTxs.func1", V("w.obsList", "r"))>>)
 
 Prog(f) ==
   CASE f = "OnMsg" ->       \* SwapService.OnMessageReceived for a message of an existing swap
@@ -154,17 +169,22 @@ Prog(f) ==
         \o IfThen("done", <<Call("RemoveActive")>>) \o <<Ret>>
     [] f = "Resend" ->      \* SwapService.ResendLastMessage
         GetActive \o IfThen("inactive", <<Ret>>)
+        \o IfThen("lockedResend", <<Acq("M")>>)
         \o <<Acc("swap.(*SwapService).ResendLastMessage", V("Data.next", "r")), Gate("msg.send")>>
-        \o IfThen("fltSend", <<Acc("swap.(*SwapService).ResendLastMessage", V("Data.err", "w"))>>) \o <<Ret>>
+        \o IfThen("fltSend", <<Acc("swap.(*SwapService).ResendLastMessage", V("Data.err", "w"))>>)
+        \o IfThen("lockedResend", <<Rel("M")>>) \o <<Ret>>
     \* ---- watcher: registration of the CSV wait
     [] f = "AddWaitForCsvTx" ->
         IfElse("rpc",
            \* txwatcher/rpctxwatcher.go AddWaitForCsvTx
            <<Gate("rpc.txout")>>
-           \o IfThen("aboveSync", <<Call("OnCsvPassed"), Ret>>)      \* csvPassedCallback(swapId) synchronously; err == nil -> return
+           \o IfThen("above",
+                 IfElse("syncCb", <<Call("OnCsvPassed"), Ret>>,          \* before the repair: csvPassedCallback(swapId) synchronously; err == nil -> return
+                                  <<Spawn("acb", "AsyncCb"), Ret>>))      \* go func() { csvPassedCallback(swapId) ... }()
            \o <<Acq("W"), Acc("txwatcher.(*BlockchainRpcTxWatcher).AddWaitForCsvTx", V("w.csvList", "w")), Set("csvN", "1"), Rel("W"), Ret>>,
            \* lwk/electrumtxwatcher.go AddWaitForCsvTx -> subscriber.Register
            <<Acq("H"), Acc("electrum.(*liquidBlockHeaderSubscriber).Register", V("el.observers", "w")), Set("csvN", "+1"), Rel("H"), Ret>>)
+    [] f = "AsyncCb" -> <<Call("OnCsvPassed"), Ret>>
     [] f = "AddWaitForConfTx" ->
         IfElse("rpc",
            <<Spawn("obs", "ObsLoop"), Acq("W"), Acc("txwatcher.(*BlockchainRpcTxWatcher).AddWaitForConfirmationTx", V("w.obsList", "w")),
@@ -173,41 +193,45 @@ Prog(f) ==
     \* ---- watcher: block notifications
     [] f = "Notify" ->      \* a new block reaches the watcher of the swap's chain
         IfElse("rpc",
-           <<Acc("txwatcher.(*BlockchainRpcTxWatcher).StartWatchingTxs.func1", V("w.obsList", "r")), Call("HandleCsvTx"), Ret>>,
+           Dispatch \o <<Call("HandleCsvTx"), Ret>>,
            IfThen("elwTakes", <<Set("hdr", "d"), Spawn("elw", "Update")>>) \o <<Ret>>)   \* the watcher goroutine takes one header at a time
     [] f = "HandleCsvTx" -> \* txwatcher/rpctxwatcher.go HandleCsvTx
         <<Set("rm", "F"), Acq("W"), Acc("txwatcher.(*BlockchainRpcTxWatcher).HandleCsvTx", V("w.csvList", "r"))>>
         \o IfThen("csvListed",
               <<Gate("rpc.txout")>>
               \o IfThen("above",
-                    IfElse("cbUnderLock", <<Call("OnCsvPassed"), Set("rm", "T")>>, <<Set("rm", "L")>>)))
+                    IfElse("cbUnderLockRpc", <<Call("OnCsvPassed"), Set("rm", "T")>>, <<Set("rm", "L")>>)))
         \o <<Rel("W")>>
         \o IfThen("rmLater", <<Call("OnCsvPassed"), Set("rm", "T")>>)
         \o <<Acq("W"), Acc("txwatcher.(*BlockchainRpcTxWatcher).TxClaimed", V("w.csvList", "w"))>>
         \o IfThen("rmNow", <<Set("csvN", "0")>>) \o <<Rel("W"), Ret>>
     [] f = "Update" ->      \* lwk StartWatchingTxs loop body: acceptBlockHeight + subscriber.Update
-        <<Set("rm", "F"), Acq("R"), Acc("lwk.(*electrumTxWatcher).acceptBlockHeight", V("el.height", "w")), Rel("R"),
-          Acq("H"), Acc("electrum.(*liquidBlockHeaderSubscriber).Update", V("el.observers", "r")), Setn("observers")>>
-        \o While("n>0",
-              <<Decn>>
-              \o IfElse("confObs",
-                    \* observeOpeningTX.Callback
-                    <<Gate("el.history")>>
-                    \o IfThen("hdrConfirmed",
-                          <<Gate("el.rawtx")>>
-                          \o IfElse("cbUnderLock",
-                                <<Call("OnTxConfirmed"), Acc("electrum.(*liquidBlockHeaderSubscriber).Deregister", V("el.observers", "w")), Set("confN", "0")>>,
-                                <<Set("rm", "K")>>)),
-                    \* observeCSVTX.Callback
-                    <<Gate("el.history")>>
-                    \o IfThen("hdrMature",
-                          IfElse("cbUnderLock",
-                                <<Call("OnCsvPassed"), Acc("electrum.(*liquidBlockHeaderSubscriber).Deregister", V("el.observers", "w")), Set("csvN", "0")>>,
-                                <<Set("rm", "L")>>))))
-        \o <<Rel("H")>>
-        \o IfThen("rmLater", <<Call("OnCsvPassed"), Acq("H"), Acc("electrum.(*liquidBlockHeaderSubscriber).Deregister", V("el.observers", "w")), Set("csvN", "0"), Rel("H")>>)
-        \o IfThen("rmConfLater", <<Call("OnTxConfirmed"), Acq("H"), Acc("electrum.(*liquidBlockHeaderSubscriber).Deregister", V("el.observers", "w")), Set("confN", "0"), Rel("H")>>)
-        \o <<Ret>>
+        <<Acq("R"), Acc("lwk.(*electrumTxWatcher).acceptBlockHeight", V("el.height", "w")), Rel("R")>>
+        \o IfElse("cbUnderLockEl",
+              \* before the repair: the registry lock is held during the observers' callbacks; Deregister does not lock
+              <<Acq("H"), Acc("electrum.(*liquidBlockHeaderSubscriber).Update", V("el.observers", "r")), Setn("observers")>>
+              \o While("n>0",
+                    <<Decn>>
+                    \o IfElse("confObs",
+                          <<Gate("el.history")>>          \* observeOpeningTX.Callback
+                          \o IfThen("hdrConfirmed", <<Gate("el.rawtx"), Call("OnTxConfirmed"),
+                                                      Acc("electrum.(*liquidBlockHeaderSubscriber).Deregister", V("el.observers", "w")), Set("confN", "0")>>),
+                          <<Gate("el.history")>>          \* observeCSVTX.Callback
+                          \o IfThen("hdrMature", <<Call("OnCsvPassed"),
+                                                   Acc("electrum.(*liquidBlockHeaderSubscriber).Deregister", V("el.observers", "w")), Set("csvN", "0")>>)))
+              \o <<Rel("H"), Ret>>,
+              \* repaired: Update is serialized by updateMu, copies the observers under the registry lock and calls them without it
+              <<Acq("U"), Acq("H"), Acc("electrum.(*liquidBlockHeaderSubscriber).Update", V("el.observers", "r")), Setn("observers"), Rel("H")>>
+              \o While("n>0",
+                    <<Decn>>
+                    \o IfElse("confObs",
+                          <<Gate("el.history")>>
+                          \o IfThen("hdrConfirmed", <<Gate("el.rawtx"), Call("OnTxConfirmed"),
+                                                      Acq("H"), Acc("electrum.(*liquidBlockHeaderSubscriber).Deregister", V("el.observers", "w")), Set("confN", "0"), Rel("H")>>),
+                          <<Gate("el.history")>>
+                          \o IfThen("hdrMature", <<Call("OnCsvPassed"),
+                                                   Acq("H"), Acc("electrum.(*liquidBlockHeaderSubscriber).Deregister", V("el.observers", "w")), Set("csvN", "0"), Rel("H")>>)))
+              \o <<Rel("U"), Ret>>)
     [] f = "ObsLoop" ->     \* txwatcher observationLoop of one swap
         Forever(<<Recv>>
                 \o IfThen("newHeight",
@@ -217,7 +241,7 @@ Prog(f) ==
                               Acq("W"), Acc("txwatcher.(*BlockchainRpcTxWatcher).observationLoop.func1", V("w.obsList", "w")), Rel("W"), Ret>>)))
     [] f = "DeliverH" ->    \* dispatcher hands the new height to the swap's observation loop
         IfElse("rpc",
-           <<Acc("txwatcher.(*BlockchainRpcTxWatcher).StartWatchingTxs.func1", V("w.obsList", "r"))>>
+           Dispatch
            \o <<Set("hk", "cf")>> \o IfThen("obsReady", <<Send("obs")>>) \o <<Ret>>,         \* a loop that is busy does not take the height (the sender goroutine stays behind)
            IfThen("elwTakes", <<Set("hdr", "d"), Spawn("elw", "Update")>>) \o <<Ret>>)
     \* ---- actions of the FSM states (Execute)
@@ -240,8 +264,8 @@ Prog(f) ==
     [] f = "A_SCOOP" -> <<Gate("msg.send"), Set("nev", "succ"), Ret>>
     \* ---- RPC / policy commands, new swaps
     [] f = "SwapOut" ->     \* SwapService.SwapOut for a NEW swap on another channel
-        <<Acc("policy.(*Policy).NewSwapsAllowed", V("pol.allow", "r")),
-          Acq("P"), Acc("policy.(*Policy).IsPeerSuspicious", V("pol.lists", "r")), Rel("P"),
+        NewSwapsAllowed
+        \o <<Acq("P"), Acc("policy.(*Policy).IsPeerSuspicious", V("pol.lists", "r")), Rel("P"),
           Acq("P"), Acc("policy.(*Policy).GetMinSwapAmountMsat", V("pol.min", "r")), Rel("P"),
           Gate("ln.canspend"), Gate("ln.spendable"),
           Acq("SW"), Acc("swap.(*SwapService).lockSwap", {<<"activeSwaps", "r">>, <<"Data.req", "r">>, <<"activeSwaps", "w">>}), Rel("SW"),
@@ -253,10 +277,9 @@ Prog(f) ==
         \o GetActive                                     \* swapIdKnown
         \o <<Gate("ln.canspend"), Gate("ln.spendable"), Gate("ln.probe"),
              Acq("SW"), Acc("swap.(*SwapService).lockSwap", {<<"activeSwaps", "r">>, <<"Data.req", "r">>, <<"activeSwaps", "w">>}), Rel("SW"),
-             Acq("M2"), Gate("persist"),
-             \* CheckRequestWrapperAction
-             Acc("policy.(*Policy).NewSwapsAllowed", V("pol.allow", "r")),
-             Acq("P"), Acc("policy.(*Policy).GetMinSwapAmountMsat", V("pol.min", "r")), Rel("P"),
+             Acq("M2"), Gate("persist")>>
+        \o NewSwapsAllowed                                \* CheckRequestWrapperAction
+        \o <<Acq("P"), Acc("policy.(*Policy).GetMinSwapAmountMsat", V("pol.min", "r")), Rel("P"),
              Acq("P"), Acc("policy.(*Policy).IsPeerAllowed", V("pol.lists", "r")), Rel("P"),
              Acq("P"), Acc("policy.(*Policy).IsPeerSuspicious", V("pol.lists", "r")), Rel("P")>>
         \o IfThen("lbtc", Height)                        \* SwapInReceiverInitAction: setLiquidPaymentWindowAnchor
@@ -265,20 +288,24 @@ Prog(f) ==
         <<Acq("P"),
           Acc("policy.(*Policy).<setter>", {<<"pol.allow", "r">>, <<"pol.lists", "r">>, <<"pol.path", "r">>}),      \* the setter's own precondition reads
           Acc("policy.(*Policy).ReloadFile<setter", {<<"pol.allow", "w">>, <<"pol.lists", "w">>, <<"pol.min", "w">>, <<"pol.path", "w">>}), Rel("P"), Ret>>
-    [] f = "PolReload" ->   \* ReloadFile called directly (peerswaprpc ReloadPolicyFile): no mutex
+    [] f = "PolReload" ->   \* ReloadFile called directly (peerswaprpc ReloadPolicyFile). Before the repair: no mutex.
         \* pol.elems: the elements of the freshly parsed lists. A setter publishes them under mu (ordered with every later Get);
-        \* ReloadFile called directly publishes them unordered, so a reader of a copy obtained by Get() races with their initialisation
-        <<Acc("policy.(*Policy).ReloadFile", {<<"pol.path", "r">>, <<"pol.allow", "w">>, <<"pol.lists", "w">>, <<"pol.min", "w">>, <<"pol.path", "w">>, <<"pol.elems", "w">>}), Ret>>
+        \* an unlocked ReloadFile publishes them unordered, so a reader of a copy obtained by Get() races with their initialisation
+        IfElse("lockedPolicy",
+           <<Acq("P"), Acc("policy.(*Policy).ReloadFile", {<<"pol.path", "r">>, <<"pol.allow", "w">>, <<"pol.lists", "w">>, <<"pol.min", "w">>, <<"pol.path", "w">>}), Rel("P"), Ret>>,
+           <<Acc("policy.(*Policy).ReloadFile", {<<"pol.path", "r">>, <<"pol.allow", "w">>, <<"pol.lists", "w">>, <<"pol.min", "w">>, <<"pol.path", "w">>, <<"pol.elems", "w">>}), Ret>>)
     [] f = "PolGet" ->
         <<Acq("P"), Acc("policy.(*Policy).Get", {<<"pol.allow", "r">>, <<"pol.lists", "r">>, <<"pol.min", "r">>}), Rel("P"),
-          Acc("policy.(*Policy).String", V("pol.elems", "r")),          \* the caller formats / marshals the copy outside the mutex
-          Acc("policy.(*Policy).NewSwapsAllowed", V("pol.allow", "r")), Ret>>
+          Acc("policy.(*Policy).String", V("pol.elems", "r"))>>          \* the caller formats / marshals the copy outside the mutex
+        \o NewSwapsAllowed \o <<Ret>>
     [] f = "Recover" ->     \* SwapService.RecoverSwaps: one goroutine per stored swap, then wg.Wait()
         <<Spawn("rec", "RecoverOne"), I("join", "rec", "", 0), Ret>>
     [] f = "RecoverOne" ->
-        <<Acq("SW"), Acc("swap.(*SwapService).lockSwap", {<<"activeSwaps", "r">>, <<"activeSwaps", "w">>}), Set("active", "T"), Rel("SW"),
-          Acc("swap.(*SwapStateMachine).Recover", V("sm.cur", "r")), Act,          \* state.Action.Execute WITHOUT the swap mutex
-          Acc("swap.(*SwapStateMachine).Recover", MarshalReads), Gate("persist")>>
+        <<Acq("SW"), Acc("swap.(*SwapService).lockSwap", {<<"activeSwaps", "r">>, <<"activeSwaps", "w">>}), Set("active", "T"), Rel("SW")>>
+        \o IfThen("lockedRecover", <<Acq("M")>>)         \* before the repair: state.Action.Execute WITHOUT the swap mutex
+        \o <<Acc("swap.(*SwapStateMachine).Recover", V("sm.cur", "r")), Act,
+             Acc("swap.(*SwapStateMachine).Recover", MarshalReads), Gate("persist")>>
+        \o IfThen("lockedRecover", <<Rel("M")>>)
         \o IfThen("nNotNoOp", <<Set("ev", "nev"), Call("SendEvent")>> \o IfThen("done", <<Call("RemoveActive")>>))
         \o <<Ret>>
     [] OTHER -> <<Ret>>
@@ -328,8 +355,13 @@ Cond(c, s, p) ==
     [] c = "nNotNoOp"    -> s.nev[p] # "NoOp"
     [] c = "rpc"         -> s.cfg.watcher = "rpc"
     [] c = "above"       -> s.d = 2
-    [] c = "aboveSync"   -> s.d = 2 /\ ~FixAsyncCb
-    [] c = "cbUnderLock" -> ~FixCbOutsideLock
+    [] c = "syncCb"      -> ~FixAsyncCb
+    [] c = "cbUnderLockRpc" -> ~FixCbRpc
+    [] c = "cbUnderLockEl"  -> ~FixCbEl
+    [] c = "lockedDispatch" -> FixDispatch
+    [] c = "lockedPolicy"   -> FixPolicy
+    [] c = "lockedResend"   -> FixResend
+    [] c = "lockedRecover"  -> FixRecover
     [] c = "csvListed"   -> s.csvN > 0
     [] c = "rmLater"     -> s.rm[p] = "L"
     [] c = "rmNow"       -> s.rm[p] = "T"
@@ -338,9 +370,10 @@ Cond(c, s, p) ==
     [] c = "confObs"     -> s.confN > 0
     [] c = "hdrMature"   -> s.hdr = 2
     [] c = "hdrConfirmed" -> s.hcf               \* judged by the height of the header
-    [] c = "confirmed"   -> s.cf /\ s.hobs >= 1  \* judged by the notified height, which may lag the node
-    [] c = "newHeight"   -> s.hobs > s.lastH     \* observationLoop: current <= lastHeight -> continue
-    [] c = "obsReady"    -> Running(s, "obs") /\ Prog(Top(s, "obs").f)[Top(s, "obs").i].op = "recv" /\ ~s.got["obs"]
+    [] c = "confirmed"   -> s.cf /\ s.ocur >= 1  \* judged by the notified height, which may lag the node
+    [] c = "newHeight"   -> s.ocur > s.lastH     \* observationLoop: current <= lastHeight -> continue
+    \* the dispatcher's offer is taken: unbuffered channel -> the loop is at its receive; buffered (repaired) -> the slot is free
+    [] c = "obsReady"    -> Running(s, "obs") /\ ~s.got["obs"] /\ (FixKickoff \/ Prog(Top(s, "obs").f)[Top(s, "obs").i].op = "recv")
     [] c = "elwTakes"    -> ~Running(s, "elw") /\ s.fresh       \* acceptBlockHeight ignores a height it has seen
     [] c = "lbtc"        -> s.cfg.lbtc
     [] c = "fltCoop"     -> "wallet.coop" \in s.cfg.faults
@@ -365,7 +398,7 @@ ApplySet(s, p, k, v) ==
     [] k = "confN"  -> [s EXCEPT !.confN = IF v = "1" THEN 1 ELSE 0]
     [] k = "hdr"    -> [s EXCEPT !.hdr = s.d, !.hcf = s.cf, !.fresh = FALSE]
     [] k = "hk"     -> [s EXCEPT !.hk[p] = s.mined]
-    [] k = "lastH"  -> [s EXCEPT !.lastH = s.hobs]
+    [] k = "lastH"  -> [s EXCEPT !.lastH = s.ocur]
     [] k = "app"    -> [s EXCEPT !.app = IF Top(s, p).ev \in {"coop", "opening"} THEN @ \cup {Top(s, p).ev} ELSE @]
     [] OTHER        -> s
 
@@ -375,6 +408,7 @@ WriterWaiting(s, p) == \E q \in Procs \ {p} : Running(s, q) /\ Ins(s, q).op = "a
                                                /\ (s.own["SW"] # "-" \/ ReadersOther(s, q))
 
 LockOf(in, p) == IF in.a = "M2" THEN "M2" \o p ELSE in.a
+SpawnName(in, p) == IF in.a = "acb" THEN "acb" \o p ELSE in.a
 \* can p execute its current instruction?
 Enabled(s, p) ==
   /\ Running(s, p)
@@ -382,10 +416,10 @@ Enabled(s, p) ==
      CASE in.op = "acq"  -> /\ s.own[LockOf(in, p)] = "-"
                             /\ (in.a = "SW" => ~ReadersOther(s, p) /\ s.rd[p] = 0)
        [] in.op = "racq" -> s.own["SW"] = "-" /\ ~WriterWaiting(s, p)
-       [] in.op = "send" -> FixKickoff \/ (Running(s, in.a) /\ Ins(s, in.a).op = "recv" /\ ~s.got[in.a])
+       [] in.op = "send" -> FixKickoff \/ (Running(s, in.a) /\ Ins(s, in.a).op = "recv" /\ ~s.got[in.a])   \* repaired: select/default never blocks
        [] in.op = "recv" -> s.got[p]
        [] in.op = "join" -> Returned(s, in.a)
-       [] in.op = "spawn" -> ~Running(s, in.a)
+       [] in.op = "spawn" -> ~Running(s, SpawnName(in, p))
        [] OTHER -> TRUE
 
 \* daemon loops waiting for input are not blocked handlers
@@ -409,9 +443,11 @@ Exec(s0, p) ==
     [] in.op = "set"   -> Adv(ApplySet(s, p, in.a, in.b), p, 1)
     [] in.op = "setn"  -> SetTop(s, p, [Top(s, p) EXCEPT !.i = @ + 1, !.n = s.csvN + s.confN])
     [] in.op = "decn"  -> SetTop(s, p, [Top(s, p) EXCEPT !.i = @ + 1, !.n = @ - 1])
-    [] in.op = "spawn" -> Adv([s EXCEPT !.started[in.a] = TRUE, !.stk[in.a] = <<Frame(in.b, "-")>>, !.got[in.a] = FALSE], p, 1)
-    [] in.op = "send"  -> Adv([s EXCEPT !.got[in.a] = TRUE, !.hobs = s.hk[p]], p, 1)
-    [] in.op = "recv"  -> Adv([s EXCEPT !.got[p] = FALSE], p, 1)
+    [] in.op = "spawn" -> LET q == SpawnName(in, p) IN
+                          Adv([s EXCEPT !.started[q] = TRUE, !.stk[q] = <<Frame(in.b, "-")>>, !.got[q] = FALSE], p, 1)
+    [] in.op = "send"  -> IF s.got[in.a] THEN Adv(s, p, 1)      \* slot taken (repaired code only): the height is dropped
+                          ELSE Adv([s EXCEPT !.got[in.a] = TRUE, !.hobs = s.hk[p]], p, 1)
+    [] in.op = "recv"  -> Adv([s EXCEPT !.got[p] = FALSE, !.ocur = s.hobs], p, 1)   \* the loop works on the height it received
     [] in.op = "join"  -> Adv(s, p, 1)
     [] OTHER -> Adv(s, p, 1)
 
@@ -458,7 +494,7 @@ InitState(cfg) ==
    csvN |-> IF cfg.restart THEN 0 ELSE IF cfg.prep = "ACP" THEN 1 ELSE IF cfg.prep = "WCSV" THEN (IF cfg.watcher = "el" THEN 2 ELSE 1) ELSE 0,
    confN |-> IF cfg.prep = "ATC" /\ ~cfg.restart /\ cfg.watcher = "el" THEN 1 ELSE 0,
    d |-> cfg.d0, hdr |-> 0, cf |-> FALSE, hcf |-> FALSE, hk |-> [p \in Procs |-> 0],
-   hobs |-> 0, lastH |-> IF cfg.prep = "ATC" /\ ~cfg.restart THEN 0 ELSE 0 - 1,   \* height (in blocks mined during the run) last offered to / processed by the observation loop
+   hobs |-> 0, ocur |-> 0, lastH |-> IF cfg.prep = "ATC" /\ ~cfg.restart THEN 0 ELSE 0 - 1,   \* height (in blocks mined during the run) last offered to / processed by the observation loop
    app |-> IF cfg.prep = "ATC" THEN {"opening"} ELSE {},
    fresh |-> cfg.prep \in {"ACP", "WCSV"} /\ ~cfg.restart,      \* blocks the watcher has not been told about yet
    nev |-> [p \in Procs |-> "-"], done |-> [p \in Procs |-> FALSE], rm |-> [p \in Procs |-> "F"],
